@@ -32,14 +32,14 @@ CLAIM = dict(
           'skeleton passes, make the result independent of the working directory), C14_bytes_found_cwd / '
           'C14_bytes_as_written_refuted (include_bytes data is cwd-independent iff the found file is the one opened), C14_lines_only '
           '(the 16 passes use the Line of an item only to report errors: any renaming of files / numbers leaves bytes, labels, constants unchanged), '
-          'C14_parser_lines_only (so does the parser), C14_whole_same_contents / C14_whole_include_is_paste (the property itself on the whole model of '
+          'C14_parser_lines_only (so does the parser), C14_whole_same_contents / C14_whole_include_is_paste(_files) / C14_whole_cwd (the property itself on the whole model of '
           'asm.assemble -- reader + lexer + parser + passes: a source with an include line anywhere and the source with the plain lines of the found file, '
           'read to any depth, pasted in its place give the same bytes, labels and constants, or the same kind of failure) -- '
           'proved about the hand-written reader model and the assembler model of C15; tie: differential runs of asm.read_lines vs the model on generated '
           'trees (depth <= 4, sibling / parent / -i / duplicate names / quotes / comments / absolute paths / decoys in the '
           'working directories); falsifier: assemble() from >= 3 working directories vs an independent textual splicer, and '
           'the real CLI from 3 directories'),
-    note=('C14_whole_include_is_paste is stated for a source given as a string (the top-level file case follows from C14_splice + C14_whole_same_contents, not composed); include_bytes items are outside the whole model (Unsupported); os.path '
+    note=('the include is one level below the top-level source in C14_whole_include_is_paste(_files) (the included file itself is read to any depth); include_bytes items are outside the whole model (Unsupported); os.path '
           'and str methods are modelled by hand (POSIX, ASCII whitespace); symlinks, cycles, non-UTF-8 files not modelled'),
     technique='Coq theorems about an executable Gallina reader model + differential correspondence + direct falsifier',
     design='6/C14')
